@@ -58,6 +58,38 @@ type Spec struct {
 	Stubs         []string            `json:"stubs"`
 	NoopPkgs      []string            `json:"noop_pkgs"`
 	Level         string              `json:"level"`
+	// SrcRewrite: call-site stubs. Textual substitutions applied to the *current* repo source of the
+	// listed files, used identically by the interpreter and by native runs (so both sides see the same
+	// stub). Every pattern must occur in the file, otherwise the check is inconclusive (stale stub).
+	SrcRewrite []SrcRewrite `json:"src_rewrite"`
+}
+
+type SrcRewrite struct {
+	File  string      `json:"file"`
+	Subst [][2]string `json:"subst"`
+}
+
+// rewrittenSources returns repo-relative file -> rewritten source for the spec's src_rewrite entries.
+func rewrittenSources(spec *Spec) (map[string]string, error) {
+	out := map[string]string{}
+	for _, rw := range spec.SrcRewrite {
+		src, ok := out[rw.File]
+		if !ok {
+			raw, err := os.ReadFile(filepath.Join(repoDir, rw.File))
+			if err != nil {
+				return nil, err
+			}
+			src = string(raw)
+		}
+		for _, s := range rw.Subst {
+			if !strings.Contains(src, s[0]) {
+				return nil, fmt.Errorf("src_rewrite %s: pattern not found (stale stub): %q", rw.File, s[0])
+			}
+			src = strings.ReplaceAll(src, s[0], s[1])
+		}
+		out[rw.File] = src
+	}
+	return out, nil
 }
 
 type KnownFinding struct {
@@ -390,6 +422,13 @@ func overlayFor(spec *Spec) (map[string][]byte, error) {
 		}
 		ov[filepath.Join(repoDir, virt)] = src
 	}
+	rws, err := rewrittenSources(spec)
+	if err != nil {
+		return nil, err
+	}
+	for f, src := range rws {
+		ov[filepath.Join(repoDir, f)] = []byte(src)
+	}
 	return ov, nil
 }
 
@@ -640,9 +679,22 @@ func runNative(spec *Spec, cases []nativeCase) ([]nativeResult, error) {
 	os.WriteFile(testFile, []byte(sb.String()), 0o644)
 	replace[filepath.Join(repoDir, strings.TrimPrefix(spec.TestPkg, "./"), "zz_verif_replay_test.go")] = testFile
 	// time.Now() -> verif.Now() in the listed files (native runs only)
+	rws, err := rewrittenSources(spec)
+	if err != nil {
+		return nil, err
+	}
+	ri := 0
+	for f, src := range rws {
+		p := filepath.Join(tmp, fmt.Sprintf("srcrewrite%d.go", ri))
+		ri++
+		os.WriteFile(p, []byte(src), 0o644)
+		replace[filepath.Join(repoDir, f)] = p
+	}
 	for i, f := range spec.ReplayRewrite {
-		src, err := os.ReadFile(filepath.Join(repoDir, f))
-		if err != nil {
+		var src []byte
+		if s, ok := rws[f]; ok {
+			src = []byte(s)
+		} else if src, err = os.ReadFile(filepath.Join(repoDir, f)); err != nil {
 			return nil, err
 		}
 		out, err := rewriteTimeNow(string(src))
